@@ -600,6 +600,31 @@ func (env *SpecEnv) call(e *SExpr) Val {
 			rcs = append(rcs, fmt.Sprintf("(forall ((x!f Int)) (! (=> (< x!f %s) (= (select %s x!f) (select %s x!f))) :pattern ((select %s x!f))))", u.get(env.entry, "next"), c, o, c))
 		}
 		return boolVal(and(rcs...))
+	case "the":
+		// the(type(T)): the one live local (or parameter) of type T — a way to name a local by its role rather than by
+		// the identifier the code happens to use for it
+		if len(e.Args) != 1 || e.Args[0].Op != "type" {
+			env.fail(e, "the(type(T))")
+		}
+		t := env.ex.resolveType(e.Args[0].Name, env.pkg)
+		if t == nil {
+			env.fail(e, "the: unknown type %s", e.Args[0].Name)
+		}
+		var found *Val
+		for name, v := range env.vars {
+			if strings.HasPrefix(name, "$") || v.Typ == nil || v.T == "" || typeKey(v.Typ) != typeKey(t) {
+				continue
+			}
+			if found != nil && found.T != v.T {
+				env.fail(e, "the(%s): more than one live local of that type", e.Args[0].Name)
+			}
+			vv := v
+			found = &vv
+		}
+		if found == nil {
+			env.fail(e, "the(%s): no live local of that type", e.Args[0].Name)
+		}
+		return *found
 	case "cast":
 		// cast(x, type(*T)): the pointer held by interface value x, typed *T
 		if len(e.Args) != 2 || e.Args[1].Op != "type" {
